@@ -583,7 +583,7 @@ func consumeDisplayString(s string) (consumed, rest string, ok bool) {
 		runeLen++
 		if utf8.FullRune(lastRune[:runeLen]) {
 			r, s := utf8.DecodeRune(lastRune[:runeLen])
-			if r == utf8.RuneError {
+			if r == utf8.RuneError && s == 1 {
 				return false
 			}
 			copy(lastRune[:], lastRune[s:runeLen])
